@@ -62,22 +62,25 @@ theorem first_spec (it : List Loop) (el : Nat) (st : St) (w : Bool)
           simp only [Except.ok.injEq, Prod.mk.injEq] at h
           rw [hw] at h
           exact absurd h.2 (by decide)
-      · simp only [Except.ok.injEq, Prod.mk.injEq] at h
-        obtain ⟨hst, _⟩ := h
-        subst hst
-        have htot : ((el : Int) * (b : Int)).toNat = el * b := by
+      · have htot : ((el : Int) * (b : Int)).toNat = el * b := by
           rw [← Int.natCast_mul]; exact Int.toNat_natCast _
-        simp only [htot, decide_eq_false_iff_not, Decidable.not_not] at hin
-        refine ⟨?_, rfl⟩
-        rw [key]
-        simp only [temporal, htot]
-        have hdiv : el * b = bank * (el * b / bank) := by
-          have := Nat.div_add_mod (el * b) bank
-          omega
-        have := merge2 bank (el * b / bank) 1 rest
-        rw [← hdiv] at this
-        rw [← this]
-        simp [bank]
+        split at h
+        · exact absurd h (by simp)
+        · next hm8 =>
+          simp only [Except.ok.injEq, Prod.mk.injEq] at h
+          obtain ⟨hst, _⟩ := h
+          subst hst
+          have hin : el * b % bank = 0 := by rw [← htot]; exact Decidable.not_not.mp hm8
+          refine ⟨?_, rfl⟩
+          rw [key]
+          simp only [temporal, htot]
+          have hdiv : el * b = bank * (el * b / bank) := by
+            have := Nat.div_add_mod (el * b) bank
+            omega
+          have := merge2 bank (el * b / bank) 1 rest
+          rw [← hdiv] at this
+          rw [← this]
+          simp [bank]
 
 /-! ### the spatial fill-up -/
 
@@ -115,40 +118,44 @@ theorem spatialStep_spec (bc : Bool) (st st' : St) (d : Nat) (s : Int)
             | (nb, ns) :: r, h =>
               simp only [] at h
               split at h
-              · split at h
-                · simp only [Except.ok.injEq, Prod.mk.injEq] at h
-                  obtain ⟨_, hst⟩ := h
-                  subst hst
-                  simp at hb
-                · exact absurd h (by simp)
-              · next heq =>
-                simp only [Decidable.not_not] at heq
-                simp only [Except.ok.injEq, Prod.mk.injEq] at h
-                obtain ⟨hs, hst⟩ := h
-                subst hs hst
-                simp only [Bool.or_eq_false_iff, decide_eq_false_iff_not, Decidable.not_not] at hin
-                simp only at hb
-                refine ⟨?_, hin.1, hb⟩
-                intro pre
-                apply offs_congr_suffix
-                simp only [temporal, hc, hr]
-                have hmod' : d % b = 0 := by simpa using hmod
-                have hd : d = b * (d / b) := by
-                  have := Nat.div_add_mod d b; omega
-                have hnb : nb = d / b * (nb / (d / b)) := by
-                  have := Nat.div_add_mod nb (d / b); omega
-                have e1 := merge2 b nb s0 r
-                have e2 := merge2 d (nb / (d / b)) s0 r
-                have hns : ns = (b : Int) * s0 := by rw [← heq]; exact Int.mul_comm _ _
-                have hs2 : s0 * (b : Int) * ((d / b : Nat) : Int) = (d : Int) * s0 := by
-                  have : (d : Int) = (b : Int) * ((d / b : Nat) : Int) := by exact_mod_cast hd
-                  rw [this, Int.mul_comm s0, Int.mul_assoc, Int.mul_assoc, Int.mul_comm s0]
-                rw [hns, e1, hs2, e2]
-                have : b * nb = d * (nb / (d / b)) := by
-                  calc b * nb = b * (d / b * (nb / (d / b))) := by rw [← hnb]
-                    _ = b * (d / b) * (nb / (d / b)) := by rw [Nat.mul_assoc]
-                    _ = d * (nb / (d / b)) := by rw [← hd]
-                rw [this]
+              · exact absurd h (by simp)
+              · next hnbmod =>
+                simp only [Decidable.not_not] at hnbmod
+                split at h
+                · split at h
+                  · simp only [Except.ok.injEq, Prod.mk.injEq] at h
+                    obtain ⟨_, hst⟩ := h
+                    subst hst
+                    simp at hb
+                  · exact absurd h (by simp)
+                · next heq =>
+                  simp only [Decidable.not_not] at heq
+                  simp only [Except.ok.injEq, Prod.mk.injEq] at h
+                  obtain ⟨hs, hst⟩ := h
+                  subst hs hst
+                  simp only at hin
+                  simp only at hb
+                  refine ⟨?_, hin, hb⟩
+                  intro pre
+                  apply offs_congr_suffix
+                  simp only [temporal, hc, hr]
+                  have hmod' : d % b = 0 := by simpa using hmod
+                  have hd : d = b * (d / b) := by
+                    have := Nat.div_add_mod d b; omega
+                  have hnb : nb = d / b * (nb / (d / b)) := by
+                    have := Nat.div_add_mod nb (d / b); omega
+                  have e1 := merge2 b nb s0 r
+                  have e2 := merge2 d (nb / (d / b)) s0 r
+                  have hns : ns = (b : Int) * s0 := by rw [← heq]; exact Int.mul_comm _ _
+                  have hs2 : s0 * (b : Int) * ((d / b : Nat) : Int) = (d : Int) * s0 := by
+                    have : (d : Int) = (b : Int) * ((d / b : Nat) : Int) := by exact_mod_cast hd
+                    rw [this, Int.mul_comm s0, Int.mul_assoc, Int.mul_assoc, Int.mul_comm s0]
+                  rw [hns, e1, hs2, e2]
+                  have : b * nb = d * (nb / (d / b)) := by
+                    calc b * nb = b * (d / b * (nb / (d / b))) := by rw [← hnb]
+                      _ = b * (d / b) * (nb / (d / b)) := by rw [Nat.mul_assoc]
+                      _ = d * (nb / (d / b)) := by rw [← hd]
+                  rw [this]
       · exact absurd h (by simp)
 
 theorem spatialLoop_spec (bc : Bool) : ∀ (dims : List Nat) (st st' : St) (ss : List Int),
@@ -200,6 +207,117 @@ theorem toStridePattern_offs (it : List Loop) (dims : List Nat) (bc : Bool) (el 
       simp only [List.cons_append, List.nil_append] at this
       rw [this]
       simp [hwLoops, Pattern.loops, zip_map_fst_snd]
+
+/-! ### what the two guards of fix FC02a establish -/
+
+theorem spatialStep_inexact (bc : Bool) (st st' : St) (d : Nat) (s : Int)
+    (h : spatialStep bc st d = .ok (s, st')) : st'.inexact = st.inexact := by
+  unfold spatialStep at h
+  match hc : st.cur, h with
+  | some (b, s0), h =>
+    simp only [] at h
+    split at h
+    · simp only [Except.ok.injEq, Prod.mk.injEq] at h; rw [← h.2]
+    · split at h
+      · split at h
+        · exact absurd h (by simp)
+        · split at h
+          · exact absurd h (by simp)
+          · match hr : st.rest, h with
+            | (nb, ns) :: r, h =>
+              simp only [] at h
+              split at h
+              · exact absurd h (by simp)
+              split at h
+              · split at h
+                · simp only [Except.ok.injEq, Prod.mk.injEq] at h; rw [← h.2]
+                · exact absurd h (by simp)
+              · simp only [Except.ok.injEq, Prod.mk.injEq] at h; rw [← h.2]
+      · exact absurd h (by simp)
+
+theorem spatialLoop_inexact (bc : Bool) : ∀ (dims : List Nat) (st st' : St) (ss : List Int),
+    spatialLoop bc st dims = .ok (ss, st') → st'.inexact = st.inexact
+  | [], st, st', ss, h => by
+    simp only [spatialLoop, Except.ok.injEq, Prod.mk.injEq] at h
+    rw [← h.2]
+  | d :: ds, st, st', ss, h => by
+    unfold spatialLoop at h
+    match h1 : spatialStep bc st d, h with
+    | .ok (s, st1), h =>
+      simp only [] at h
+      match h2 : spatialLoop bc st1 ds, h with
+      | .ok (ss', st2), h =>
+        simp only [Except.ok.injEq, Prod.mk.injEq] at h
+        rw [← h.2, spatialLoop_inexact bc ds st1 st2 ss' h2, spatialStep_inexact bc st st1 d s h1]
+
+theorem first_inexact (it : List Loop) (st : St) (w : Bool) (h : first it = .ok (st, w)) : st.inexact = false := by
+  unfold first at h
+  match it, h with
+  | (b, s) :: rest, h =>
+    simp only [] at h
+    split at h
+    · match rest, h with
+      | x :: r, h => simp only [Except.ok.injEq, Prod.mk.injEq] at h; rw [← h.1]
+    · split at h
+      · match rest, h with
+        | x :: r, h => simp only [Except.ok.injEq, Prod.mk.injEq] at h; rw [← h.1]
+      · split at h
+        · exact absurd h (by simp)
+        · simp only [Except.ok.injEq, Prod.mk.injEq] at h; rw [← h.1]
+
+/-- with fix FC02a no floor division of the conversion can lose anything: every result is exact -/
+theorem toStridePattern_exact (it : List Loop) (dims : List Nat) (bc : Bool) (r : Res)
+    (h : toStridePattern it dims bc = .ok r) : r.inexact = false := by
+  unfold toStridePattern at h
+  match h1 : first it, h with
+  | .ok (st, w), h =>
+    simp only [] at h
+    match h2 : spatialLoop bc st dims, h with
+    | .ok (ss, st'), h =>
+      simp only [Except.ok.injEq] at h
+      subst h
+      simp only []
+      rw [spatialLoop_inexact bc dims st st' ss h2, first_inexact it st w h1]
+
+theorem first_warned (it : List Loop) (st : St) (h : first it = .ok (st, false)) :
+    ∃ b s rest, it = (b, s) :: rest ∧ ¬ s * (b : Int) < 8 := by
+  unfold first at h
+  match it, h with
+  | (b, s) :: rest, h =>
+    refine ⟨b, s, rest, rfl, ?_⟩
+    simp only [] at h
+    split at h
+    · next h8 => omega
+    · split at h
+      · match rest, h with
+        | x :: r, h => simp only [Except.ok.injEq, Prod.mk.injEq] at h; exact absurd h.2 (by decide)
+      · next hlt => exact hlt
+
+/-- … and an accepted operand that did not take the warning path has a contiguous innermost dimension -/
+theorem toStridePatternEl_inner (el : Nat) (it : List Loop) (dims : List Nat) (bc : Bool) (r : Res)
+    (h : toStridePatternEl el it dims bc = .ok r) (hw : r.warned = false) :
+    toStridePattern it dims bc = .ok r ∧ innerStride it = some (el : Int) := by
+  unfold toStridePatternEl at h
+  split at h
+  · next hc =>
+    refine ⟨h, ?_⟩
+    unfold toStridePattern at h
+    match h1 : first it, h with
+    | .ok (st, w), h =>
+      simp only [] at h
+      match h2 : spatialLoop bc st dims, h with
+      | .ok (ss, st'), h =>
+        simp only [Except.ok.injEq] at h
+        subst h
+        simp only at hw
+        subst hw
+        obtain ⟨b, s, rest, rfl, hlt⟩ := first_warned it st h1
+        simp only [contiguousInner, Bool.or_eq_true, decide_eq_true_eq] at hc
+        simp only [innerStride, List.head?_cons, Option.map_some]
+        rcases hc with hc | hc
+        · exact absurd hc hlt
+        · rw [hc]
+  · exact absurd h (by simp)
 
 /-! ### steps -/
 
@@ -402,6 +520,8 @@ theorem spatialStep_emits (bc : Bool) (st st' : St) (d : Nat) (s : Int)
             | (nb, ns) :: r, h =>
               simp only [] at h
               split at h
+              · exact absurd h (by simp)
+              split at h
               · split at h
                 · simp only [Except.ok.injEq, Prod.mk.injEq] at h; rw [h.1]
                 · exact absurd h (by simp)
@@ -424,6 +544,8 @@ theorem spatialStep_spec_flags (bc : Bool) (st st' : St) (d : Nat) (s : Int)
           · match hr : st.rest, h with
             | (nb, ns) :: r, h =>
               simp only [] at h
+              split at h
+              · exact absurd h (by simp)
               split at h
               · split at h
                 · simp only [Except.ok.injEq, Prod.mk.injEq] at h; rw [← h.2] at hb; simp at hb
